@@ -137,6 +137,36 @@ func c14CheckHeader(r *verifmc.Report, h ref.C14Header) {
 	}
 }
 
+// c14CheckDecodeIntoUsed: a header object whose hash was already asked for is the destination of a
+// decode of ANOTHER header's encoding (a reused buffer object): afterwards it must encode to that
+// encoding and Hash() must be BLAKE2b-256 of it.
+func c14CheckDecodeIntoUsed(r *verifmc.Report, first, second ref.C14Header) {
+	hdr, err := c14BuildHeader(first)
+	if err != nil {
+		return
+	}
+	_ = hdr.Hash()
+	enc2 := ref.C14RefHeader(second).B
+	r.Add("evaluations", 1)
+	if err := scale.Unmarshal(enc2, hdr); err != nil {
+		r.Outcome("decode-into-used-header:error")
+		r.Violate("Header.decode-into-used-header:error", fmt.Sprintf("decoding the reference encoding of %s into a header that held %s fails: %v", second, first, err), nil)
+		return
+	}
+	if enc, _ := scale.Marshal(*hdr); !bytes.Equal(enc, enc2) {
+		r.Violate("Header.decode-into-used-header:re-encoding-differs", fmt.Sprintf("after decoding %x into a header that held %s it encodes to %x", enc2, first, enc), nil)
+	}
+	want := ref.Blake256(enc2)
+	if got := hdr.Hash(); !bytes.Equal(got[:], want) {
+		r.Outcome("decode-into-used-header:stale-hash")
+		r.Violate("Header.Hash:stale-after-decoding-into-a-used-header",
+			fmt.Sprintf("Hash() was called on a header holding %s, then the encoding of %s was decoded into the same object: Hash() returns %x, BLAKE2b-256 of the decoded encoding is %x", first, second, got[:], want),
+			map[string]any{"first": first.String(), "second": second.String()})
+	} else {
+		r.Outcome("decode-into-used-header:fresh-hash")
+	}
+}
+
 // c14CheckStaleHash: Hash() after changing a field of a header whose hash was already computed.
 func c14CheckStaleHash(r *verifmc.Report, h ref.C14Header) {
 	type mut struct {
@@ -522,6 +552,9 @@ func TestVerif_C14_types(t *testing.T) {
 	for i, h := range headers {
 		if i%97 == 0 && ref.C14Representable(h) { // every 97th header (deterministic stride) x 5 field changes
 			c14CheckStaleHash(r, h)
+		}
+		if i%7 == 0 && ref.C14Representable(h) && ref.C14Representable(headers[(i+1)%len(headers)]) {
+			c14CheckDecodeIntoUsed(r, h, headers[(i+1)%len(headers)])
 		}
 	}
 	r.Sample(map[string]any{"header": headers[len(headers)/2].String(), "reference_encoding": verifmc.Hex(ref.C14RefHeader(headers[len(headers)/2]).B)})
